@@ -518,6 +518,12 @@ func (p *parser) InstantiateGenericFunction(genericFunc *ast.FuncDecl, genericTy
 
 	context := p.generateGenericContext(genericFunc.Generic.Context, parameters, genericTypes)
 
+	// the errors of the instantiation are returned to the caller, who decides wether they count
+	// (the instantiation might only be one of several candidates for a call),
+	// they do not make the (maybe already imported) module that declares the generic function faulty
+	faulty := genericFunc.Mod.Ast.Faulty
+	defer func() { genericFunc.Mod.Ast.Faulty = faulty }()
+
 	errorCollector := ddperror.Collector{}
 	declParser := &parser{
 		tokens:        genericFunc.Generic.Tokens,
